@@ -1,1 +1,3 @@
 pub mod c03;
+pub mod c07;
+pub mod c12;
